@@ -104,6 +104,26 @@ func (b *Barrier) Wait() {
 	<-b.gate
 }
 
+// SpinBarrier releases n goroutines within nanoseconds of each other:
+// they spin on a counter instead of being woken one after the other.
+type SpinBarrier struct {
+	n   int32
+	cnt atomic.Int32
+}
+
+func NewSpinBarrier(n int) *SpinBarrier { return &SpinBarrier{n: int32(n)} }
+
+// Wait spins (yielding now and then, so that it also works with fewer
+// processors than goroutines) until n goroutines have arrived.
+func (b *SpinBarrier) Wait() {
+	b.cnt.Add(1)
+	for spins := 0; b.cnt.Load() < b.n; spins++ {
+		if spins%200 == 199 {
+			runtime.Gosched()
+		}
+	}
+}
+
 // ---- hook scripting -------------------------------------------------
 
 var hookMu sync.Mutex
